@@ -61,7 +61,7 @@ func c14Store(c *vlib.Ctx) {
 		for ci, sc := range cfgs {
 			for s := 0; s < seqs; s++ {
 				r := vlib.Derive(c.Seed, "C14", be, ci, s)
-				g := storecheck.GenCfg{NIDs: r.Range(8, 40), Routes: stdRoutes, Targets: stdTargets, Ties: true, OutOfOrder: r.Bool(), Weights: w}
+				g := storecheck.GenCfg{NIDs: r.Range(8, 40), Routes: stdRoutes, Targets: stdTargets, Ties: true, OutOfOrder: r.Bool(), Weights: w, FarInstants: true}
 				storecheck.RunSequence(c, r, storecheck.RunCfg{
 					Backends: []string{be}, Store: sc, Gen: g, Steps: r.Range(50, 110),
 					Label: fmt.Sprintf("C14/%s/cfg%d/seq%d", be, ci, s),
